@@ -62,8 +62,8 @@ theorem evalK {N : NumOps} (call : CallFn N) (ρ : ExtOracle N) (k : Nat) (env :
     simp [hx, Res.bind, first, Val.truthy] at h
     exact h.1.symm
 
-theorem kApi_sound : EvalSound kApi notInst where
-  truthy e b hg ht N call ρ k env σ σ' vs h := by
+theorem kApi_sound (N : NumOps) : EvalSound N kApi notInst where
+  truthy e b hg ht call ρ k env σ σ' vs h := by
     by_cases hk : isK e = true
     · have := isK_eq hk; subst this
       have hv := evalK call ρ k env σ σ' vs h
@@ -71,17 +71,17 @@ theorem kApi_sound : EvalSound kApi notInst where
       subst hv; subst ht; simp [first, Val.truthy]
     · have ht' : litApi.isTruthy e = some b := by
         simpa [EvalApi.isTruthy, kApi, hk] using ht
-      exact litApi_sound.truthy e b hg ht' call ρ k env σ σ' vs h
-  pure e hg hs hn N call ρ k env σ σ' vs h := litApi_sound.pure e hg hs hn call ρ k env σ σ' vs h
-  str e s hg hkind N call ρ k env σ σ' vs h := by
+      exact (litApi_sound N).truthy e b hg ht' call ρ k env σ σ' vs h
+  pure e hg hs hn call ρ k env σ σ' vs h := (litApi_sound N).pure e hg hs hn call ρ k env σ σ' vs h
+  str e s hg hkind call ρ k env σ σ' vs h := by
     by_cases hk : isK e = true
     · have := isK_eq hk; subst this
       have hv := evalK call ρ k env σ σ' vs h
       simp [kApi, hk] at hkind
       subst hv; subst hkind; simp [first]
     · have hk' : litApi.kind e = .string s := by simpa [kApi, hk] using hkind
-      exact litApi_sound.str e s hg hk' call ρ k env σ σ' vs h
-  single e hg hm N call ρ k env σ σ' vs h := canReturnMultiple_sound call ρ k env e hm hg σ σ' vs h
+      exact (litApi_sound N).str e s hg hk' call ρ k env σ σ' vs h
+  single e hg hm call ρ k env σ σ' vs h := canReturnMultiple_sound call ρ k env e hm hg σ σ' vs h
 
 /-- a start state whose only global is the external function `f` -/
 def σ0 : State unitOps :=
